@@ -60,7 +60,7 @@ def one_case(rng, tier):
         nodes.append({'id': 'fl', 'op': 'flatten', 'ups': [last]})
         last = 'fl'
     g = aprogs.AGen(rng)
-    nodes.append({'id': 'sk', 'op': 'sink', 'ups': [last], 'kind': rng.choice(['sync', 'coro', 'coro', 'future', 'tornado']), 'svc': g._svc()})
+    nodes.append({'id': 'sk', 'op': 'sink', 'ups': [last], 'kind': rng.choice(['sync', 'coro', 'coro', 'future', 'tornado', 'awaitable']), 'svc': g._svc()})
     prog = {'nodes': nodes, 'extra_edges': []}
     prods = []
     grid = [0, 0, 0.25, 0.5, 0.5, 1.0, 1.0, 2.0, 3.0]
